@@ -13,6 +13,9 @@ from collections import Counter
 from .. import runner
 from ..gen import ctrl
 
+# header comments end in non-ASCII text: from there on byte offsets and character offsets differ (Latin-1 supplement, Thai, CJK, astral plane)
+NON_ASCII = " \u2014 g\u00e9n\u00e9r\u00e9 \u0e2a\u0e23\u0e49\u0e32\u0e07 \u751f\u6210 \U0001f600"
+
 CMDS = ("unwrap-abuse", "clone-abuse", "blocking-async")
 FS_FUNCS = ["read_to_string", "read", "write", "create_dir", "create_dir_all", "remove_file", "remove_dir", "rename", "copy", "metadata", "read_dir"]
 
@@ -126,7 +129,7 @@ def body(rng, b: B, ind: str, is_test: bool, is_async: bool, n: list):
 def gen_file(rng, idx):
     b = B()
     n = [idx * 1000]
-    b.add("// Generated module %d" % idx)
+    b.add("// Generated module %d%s" % (idx, NON_ASCII))
     b.add("use std::fs;")
     b.add("use std::thread;")
     b.add("use std::net;")
